@@ -5,6 +5,7 @@ import (
 	"math/big"
 
 	"github.com/ontio/ontology/common"
+	"github.com/ontio/ontology/common/constants"
 	"github.com/ontio/ontology/smartcontract/service/native"
 	gov "github.com/ontio/ontology/smartcontract/service/native/governance"
 
@@ -19,7 +20,8 @@ type splitIn struct {
 	History c11.History `json:"history"`
 	Upto    int         `json:"upto"` // number of history operations executed before the split
 	Env     envT        `json:"env"`
-	Income  uint64      `json:"income"` // ONG (10^-9) held by governance above the recorded split fee when the split runs
+	Income  uint64      `json:"income"`  // ONG (10^-9) held by governance above the recorded split fee when the split runs
+	KeepOng bool        `json:"keepOng"` // leave governance's ONG balance as the history produced it
 	Gas     int         `json:"gasAddr"`
 }
 
@@ -52,14 +54,53 @@ func runSplit(c *hx.Ctx, in *splitIn) {
 	for i := 0; i < in.Upto && i < len(in.History.Ops); i++ {
 		w.Apply(&in.History.Ops[i])
 	}
-	// the income of this round: ONG is outside the models, the balance is written directly
-	var sf uint64
-	w.WithNative(in.Env.Height, in.History.Setup.Time0, func(ns *native.NativeService) { sf, _ = gov.VerifGetSplitFee(ns, govC) })
-	bal := sf + in.Income
-	if bal < sf {
-		bal = ^uint64(0)
+	splitAt(c, w, in)
+}
+
+// h2 evaluates hypothesis (H2) on decoded storage: for each candidate of the previous view's pool,
+// the validate positions of its authorizers (owner excluded) fit into the TotalPos frozen there.
+func h2(c *hx.Ctx, o *c11.Obs, in *splitIn) {
+	cur := map[int]int{}
+	for _, p := range o.Pool {
+		cur[p.Peer] = p.Status
 	}
-	w.SetOng(c11.IDGov, bal)
+	for _, p := range o.Prev {
+		if p.Status != 1 && p.Status != 2 {
+			continue
+		}
+		cs := p.Status == 2 || cur[p.Peer] == 2
+		var sum uint64
+		for _, i := range o.Infos {
+			if i.Peer != p.Peer || i.Addr == p.Owner {
+				continue
+			}
+			if cs {
+				sum += i.B[0] + i.B[3]
+			} else {
+				sum += i.B[1] + i.B[4]
+			}
+		}
+		c.Count("h2-evaluated")
+		if sum > p.Total {
+			c.Fail("split:h2-violated", "the authorizers' validate positions of a peer exceed its TotalPos in the previous view's pool (the fee split would hand out more than the node's amount)", in,
+				map[string]interface{}{"peer": p.Peer, "sum": sum, "prevTotalPos": p.Total, "consensus_side": cs}, nil)
+		}
+	}
+}
+
+// splitAt runs executeSplit2 on the world's current storage (throw-away cache), emits the
+// correspondence case and evaluates the oracle.
+func splitAt(c *hx.Ctx, w *c11.World, in *splitIn) {
+	if !in.KeepOng {
+		// the income of this round: ONG is outside the models, the balance is written directly
+		var sf uint64
+		w.WithNative(in.Env.Height, in.History.Setup.Time0, func(ns *native.NativeService) { sf, _ = gov.VerifGetSplitFee(ns, govC) })
+		bal := sf + in.Income
+		if bal < sf {
+			bal = ^uint64(0)
+		}
+		w.SetOng(c11.IDGov, bal)
+	}
 	o, err := w.Observe()
 	if err != nil {
 		panic(err)
@@ -104,33 +145,7 @@ func runSplit(c *hx.Ctx, in *splitIn) {
 		c.Fail("split:panic", "executeSplit2 panics on a state produced by governance transactions: "+pmsg, in, nil, nil)
 		return
 	}
-	// the hypothesis taken from C11: per candidate of the previous view, the authorizers' validate
-	// positions fit into its TotalPos
-	cur := map[int]int{}
-	for _, p := range o.Pool {
-		cur[p.Peer] = p.Status
-	}
-	for _, p := range o.Prev {
-		if p.Status != 1 && p.Status != 2 {
-			continue
-		}
-		cs := p.Status == 2 || cur[p.Peer] == 2
-		var sum uint64
-		for _, i := range o.Infos {
-			if i.Peer != p.Peer || i.Addr == p.Owner {
-				continue
-			}
-			if cs {
-				sum += i.B[0] + i.B[3]
-			} else {
-				sum += i.B[1] + i.B[4]
-			}
-		}
-		if sum > p.Total {
-			c.Fail("split:validatepos-exceeds-totalpos", "sum of the authorizers' validate positions of a peer exceeds its TotalPos in the previous view's pool", in,
-				map[string]interface{}{"peer": p.Peer, "sum": sum, "totalPos": p.Total, "consensus_side": cs}, nil)
-		}
-	}
+	h2(c, o, in)
 	if r != "XOk" {
 		c.Count("split:error:" + serr.Error())
 		return
@@ -144,6 +159,7 @@ func runSplit(c *hx.Ctx, in *splitIn) {
 		c.Fail("fee-ledger:records-differ-from-splitfee", "the per-address split fee records do not add up to the recorded splitFee", in, recorded.String(), splitFee)
 	}
 	credited := new(big.Int)
+	authorizerCredited := false
 	for id := 0; id < c11.NAddr; id++ {
 		a, b := feeOf(fees0, uint64(id)), feeOf(fees1, uint64(id))
 		if b < a {
@@ -151,6 +167,12 @@ func runSplit(c *hx.Ctx, in *splitIn) {
 			continue
 		}
 		credited.Add(credited, new(big.Int).SetUint64(b-a))
+		if b > a && id >= 8 && id <= 10 {
+			authorizerCredited = true
+		}
+	}
+	if authorizerCredited {
+		c.Count("split:authorizer-credited") // some peer shares its fee (cost below 100) with an authorizer
 	}
 	if credited.Cmp(new(big.Int).SetUint64(splitSum)) != 0 {
 		c.Fail("split:credits-differ-from-splitsum", "the amounts credited to addresses differ from the splitSum added to the recorded split fee", in, credited.String(), splitSum)
@@ -230,15 +252,89 @@ func runWithdrawFee(c *hx.Ctx, in *wfeeIn) {
 	}
 }
 
+// walk replays a history once: (H2) is evaluated on the decoded storage after every transaction,
+// and right before every transaction that may settle an epoch (commitDpos, blackNode) - and at the
+// end - executeSplit2 is run on the storage and ONG balance the history itself produced.
+func walk(c *hx.Ctx, h *c11.History) {
+	w := c11.NewWorld(c)
+	if err := w.Genesis(&h.Setup); err != nil {
+		panic(err)
+	}
+	mk := func(upto int, height uint32) *splitIn {
+		return &splitIn{Kind: "split", History: *h, Upto: upto, Gas: 10, KeepOng: true,
+			Env: envT{Height: height, A: 50, B: 50, Yita: 5, K: 7, CandNum: 49}}
+	}
+	for i := range h.Ops {
+		op := &h.Ops[i]
+		if op.Kind == "commit" || op.Kind == "black" {
+			splitAt(c, w, mk(i, op.Height))
+		}
+		w.Apply(op)
+		o, err := w.Observe()
+		if err != nil {
+			panic(err)
+		}
+		h2(c, o, mk(i+1, op.Height))
+	}
+	last := h.Setup.Height0
+	if n := len(h.Ops); n > 0 {
+		last = h.Ops[n-1].Height
+	}
+	splitAt(c, w, mk(len(h.Ops), last+1))
+}
+
+// probeHistories: within one epoch an address holding Consensus (resp. Candidate) positions on a
+// peer whose owner shares the fees (cost 20 / 30) authorizes more and then unauthorizes more than
+// it just added; the epoch is then settled twice and the fees are withdrawn.
+func probeHistories() []*c11.History {
+	st := c11.Setup{Funded: true, Bal: map[int]uint64{5: 100000, 6: 100000, 7: 100000, 8: 60000, 9: 60000, 10: 60000},
+		Height0: hExact, Time0: constants.CHANGE_UNBOUND_TIMESTAMP_MAINNET + 100000}
+	for i := 1; i <= 7; i++ {
+		st.Peers = append(st.Peers, c11.GenesisPeer{Peer: i, Owner: 3 + i%2, Init: uint64(10000 + 1000*i)})
+	}
+	ops := []c11.Op{
+		{Kind: "feepct", Signer: 4, Addr: 4, Peer: 7, Amount: 20, Pos: []uint32{20}},
+		{Kind: "maxauth", Signer: 4, Addr: 4, Peer: 7, Amount: 200000},
+		{Kind: "authorize", Signer: 8, Addr: 8, Peers: []int{7}, Pos: []uint32{10000}},
+		{Kind: "register", Signer: 6, Addr: 6, Peer: 9, Amount: 10000},
+		{Kind: "maxauth", Signer: 6, Addr: 6, Peer: 9, Amount: 100000},
+		{Kind: "peercost", Signer: 6, Addr: 6, Peer: 9, Amount: 30},
+		{Kind: "authorize", Signer: 9, Addr: 9, Peers: []int{9}, Pos: []uint32{500}},
+	}
+	for i := 0; i < 9; i++ {
+		ops = append(ops, c11.Op{Kind: "commit", Signer: c11.IDAdmin})
+	}
+	ops = append(ops,
+		c11.Op{Kind: "authorize", Signer: 8, Addr: 8, Peers: []int{7}, Pos: []uint32{5000}},
+		c11.Op{Kind: "unauthorize", Signer: 8, Addr: 8, Peers: []int{7}, Pos: []uint32{7500}},
+		c11.Op{Kind: "authorize", Signer: 9, Addr: 9, Peers: []int{9}, Pos: []uint32{1000}},
+		c11.Op{Kind: "unauthorize", Signer: 9, Addr: 9, Peers: []int{9}, Pos: []uint32{1500}},
+		c11.Op{Kind: "commit", Signer: c11.IDAdmin},
+		c11.Op{Kind: "commit", Signer: c11.IDAdmin},
+	)
+	h, t := st.Height0, st.Time0
+	for i := range ops {
+		h++
+		t += 5
+		ops[i].Height, ops[i].Time = h, t
+	}
+	return []*c11.History{{Setup: st, Ops: ops}}
+}
+
 func splitCases(c *hx.Ctx) {
+	var hs []*c11.History
+	for _, h := range probeHistories() {
+		hs = append(hs, h)
+		c.Count("split:probe-history")
+	}
 	n := c.N(10, 120)
 	for i := 0; i < n; i++ {
-		h := c11.GenSplitHistory(c, i)
-		points := []int{len(h.Ops)}
-		for j := 0; j < 5; j++ {
-			points = append(points, 7+c.Intn(len(h.Ops)-6))
-		}
-		for _, upto := range points {
+		hs = append(hs, c11.GenSplitHistory(c, i))
+	}
+	for _, h := range hs {
+		walk(c, h)
+		for j := 0; j < 3; j++ {
+			upto := 7 + c.Intn(len(h.Ops)-6)
 			in := &splitIn{Kind: "split", History: *h, Upto: upto, Gas: 10,
 				Env: envT{A: 50, B: 50, Yita: 5, K: 7, CandNum: 49}}
 			in.Env.Height = []uint32{hOldCost, hNewCost, hExact, hExact}[c.Intn(4)]
